@@ -27,3 +27,6 @@ for nm, what in (("same_shard", "a -> q (same shard)"), ("over_existing", "a -> 
     K("c01_rename_" + nm, "eng", ["C01", "C02", "C08"], tier="quick", timeout=900,
       desc="RENAME %s: value and TTL deadline travel, source disappears, destination replaced, expiry index follows the value, both keys reported to watchers; missing source = 'no such key' without effect" % what,
       encodes=["StorageEngine::rename"], bounds="value 2 symbolic bytes, deadline fixed; unwind 5", stubs=STD_STUBS)
+for nm in ("missing", "present"):
+    K("c01_rename_same_name_" + nm, "eng", ["C01", "C02"], tier="quick", timeout=900,
+      desc="RENAME k k with k %s: an existing key keeps value and TTL; a missing key is 'no such key'" % nm, encodes=["StorageEngine::rename"], bounds="2 symbolic bytes", stubs=STD_STUBS)
